@@ -106,3 +106,36 @@ Lemma offline_example :
   | _ => (0, 0, None, None)
   end = (2, 5, None, Some [((0, 2), 2); ((5, 3), 2); ((5, 2), 1)]).
 Proof. vm_compute. reflexivity. Qed.
+
+(* a body split whose guard holds and that is accepted: body 1 = {1,1} in block 0, the first voxel
+   is split off into body 10 (supervoxel 1 -> split 11 / remain 12) *)
+Definition exS0 : fstate := f_write all_fixed (mapped []) f_empty false [(0, [1; 1; 2; 0])].
+Definition exSplit : op := OSplit 1 10 [(0, [true; false; false; false])] [(1, (11, 12))].
+
+Lemma split_example :
+  exists st', Inv 4 exS0 /\ op_guard all_fixed 4 exS0 exSplit /\
+              fstep all_fixed (mapped (f_map exS0)) exS0 exSplit = Ok st' /\ Inv 4 st' /\
+              (o_size exS0 1, o_size st' 1, o_size st' 10, o_supervoxels st' 1, o_supervoxels st' 10,
+               aget N.eqb 0 (f_vox st')) = (2, 1, 1, [12], [11], Some [11; 12; 2; 0]).
+Proof.
+  assert (Inv 4 exS0) as I0.
+  { apply (consistent_step all_fixed 4 f_empty (OIngest [(0, [1; 1; 2; 0])]) exS0); [reflexivity | | | reflexivity].
+    - split; [apply consistent_init | intros b a H; discriminate].
+    - simpl. split; [reflexivity|]. split; [repeat constructor; simpl; tauto|]. split.
+      + intros b a [H|[]]. inversion H; subst. split; reflexivity.
+      + intros b a s _ _ Hs. exact Hs. }
+  assert (op_guard all_fixed 4 exS0 exSplit) as G.
+  { assert (f_vox exS0 = [(0, [1; 1; 2; 0])]) as X by (vm_compute; reflexivity).
+    assert (f_map exS0 = []) as M by (vm_compute; reflexivity).
+    simpl. unfold split_guard. split; [discriminate|]. split; [vm_compute; reflexivity|].
+    split; [repeat constructor; simpl; tauto|].
+    split; [repeat constructor; simpl; intuition discriminate|]. split.
+    - intros s sp re [H|[]]. inversion H; subst. split; [discriminate|]. split; [rewrite M; reflexivity|].
+      split; (split; [discriminate|]); intro b; unfold vcount; rewrite X; simpl; destruct (b =? 0); reflexivity.
+    - exists 0, 1, 11, 12. split; [now left | vm_compute; reflexivity]. }
+  eexists. split; [exact I0|]. split; [exact G|].
+  assert (exists st', fstep all_fixed (mapped (f_map exS0)) exS0 exSplit = Ok st') as [st' E] by (eexists; vm_compute; reflexivity).
+  pose proof (consistent_step all_fixed 4 exS0 exSplit st' ltac:(reflexivity) I0 G E) as I1.
+  vm_compute in E. apply Ok_inj in E. subst st'.
+  split; [vm_compute; reflexivity|]. split; [exact I1|]. vm_compute. reflexivity.
+Qed.
